@@ -137,6 +137,34 @@ impl Prop for C17 {
     for (k, xs) in [vec![5u64, 3, 8], vec![1], vec![2, 2, 2, 2, 2], vec![9, 1], vec![4, 0, 6, 7]].iter().enumerate() {
       out.push(Case { id: format!("array;sum;k={}", k), cell: "array;sum".into(), input: json!({"mode": "array", "xs": xs}) });
     }
+    // array state patterns over EVERY numeric element kind (the pattern matcher slices the matrix per kind), three machines:
+    // head | tail sum, two-item prefix | tail (sum of the odd positions), first … last
+    for k in crate::refm::REAL_KINDS.iter().filter(|k| **k != "r64") {
+      for (j, xs) in [vec![5i64, 3, 8], vec![1], vec![2, 7, 1, 8, 2], vec![9, 1], vec![4, 0, 6, 7], vec![]].iter().enumerate() {
+        for pat in ["sum", "odd", "ends"] {
+          if tier == Tier::Quick && (j + pat.len() + k.len() + seed as usize) % 2 == 1 { continue; }
+          out.push(Case { id: format!("arraykind;kind={};pat={};k={}", k, pat, j), cell: format!("arraykind;kind={};pat={}", k, pat), input: json!({"mode": "arraykind", "kind": k, "xs": xs, "pat": pat}) });
+        }
+      }
+    }
+    // declared argument kinds x arguments: an argument is accepted exactly when its kind is the declared one (scalar kind,
+    // element kind of an unsized matrix kind, element kind AND shape of a sized matrix kind)
+    {
+      let decls = ["u64", "u8", "i64", "f64", "bool", "string", "[u64]", "[f64]", "[u64]:1,3", "[u64]:3,1", "[u64]:2,2", "[f64]:1,2", "[u8]:1,3"];
+      let args: [(&str, &str, (usize, usize)); 14] = [("5u64", "u64", (0, 0)), ("5u8", "u8", (0, 0)), ("5<i64>", "i64", (0, 0)), ("5.5", "f64", (0, 0)), ("true", "bool", (0, 0)), ("\"five\"", "string", (0, 0)),
+        ("[1u64 2u64 3u64]", "u64", (1, 3)), ("[1u64 2u64]", "u64", (1, 2)), ("[1u64; 2u64; 3u64]", "u64", (3, 1)), ("[1u64 2u64; 3u64 4u64]", "u64", (2, 2)), ("[1u64 2u64 3u64 4u64]", "u64", (1, 4)), ("[1u8 2u8 3u8]", "u8", (1, 3)), ("[1.5 2.5]", "f64", (1, 2)), ("[1.5 2.5 3.5]", "f64", (1, 3))];
+      for d in decls.iter() {
+        for (a, ak, ash) in args.iter() {
+          let accept = if let Some(rest) = d.strip_prefix('[') {
+            let (ek, dims) = rest.split_once(']').unwrap();
+            ash.0 > 0 && ek == *ak && (dims.is_empty() || dims == format!(":{},{}", ash.0, ash.1))
+          } else { ash.0 == 0 && d == ak };
+          for via in ["literal", "variable"] {
+            out.push(Case { id: format!("argkind;decl={};arg={};via={}", d, a, via), cell: format!("argkind;decl={};{}", d, if accept { "right" } else { "wrong" }), input: json!({"mode": "argkind", "decl": d, "arg": a, "accept": accept, "via": via}) });
+          }
+        }
+      }
+    }
     // machines invoked where their arguments are LOCAL names: from another machine's transition, and from a comprehension
     // (a global of the same name holds another value; a wrong-kind element must still be rejected)
     for (i, k0) in [0u64, 5, 9].iter().enumerate() {
@@ -250,6 +278,58 @@ impl Prop for C17 {
         let want: u64 = xs.iter().sum();
         let nt = ev.iter().filter(|(l, _)| l == "transition").count();
         match &res { Ev::Ok(CVal::S(_, Sc::U(g))) if *g as u64 == want => if nt == xs.len() + 1 { Outcome::held() } else { Outcome::violated("visited-sequence-differs", format!("{}\n{} transitions traced, expected {}", src, nt, xs.len() + 1)) }, other => Outcome::violated("wrong-result", format!("{}\nreturned {} expected {}", src, other.show(), want)) }
+      }
+      "arraykind" => {
+        let k = case.input["kind"].as_str().unwrap();
+        let xs: Vec<i64> = serde_json::from_value(case.input["xs"].clone()).unwrap();
+        let pat = case.input["pat"].as_str().unwrap();
+        let sc = |v: i64| match k { "f64" => Sc::f64(v as f64), "f32" => Sc::f32(v as f32), _ => crate::refm::small_val(k, v) };
+        let l = |v: i64| lit(&CVal::S(k.to_string(), sc(v))).unwrap();
+        let arg = if xs.is_empty() { "[]".to_string() } else { format!("[{}]", xs.iter().map(|x| l(*x)).collect::<Vec<_>>().join(" ")) };
+        let (body, want): (String, i64) = match pat {
+          "sum" => ("  :Scan([x | tail], acc) -> :Scan(tail, acc + x)\n  :Scan([], acc) -> :Done(acc)\n".into(), xs.iter().sum()),
+          "odd" => ("  :Scan([a, b | tail], acc) -> :Scan(tail, acc + a)\n  :Scan([a | tail], acc) -> :Scan(tail, acc + a)\n  :Scan([], acc) -> :Done(acc)\n".into(), xs.iter().step_by(2).sum()),
+          // first and last of a vector with at least two elements, the single element twice, zero for the empty vector
+          _ => ("  :Scan([lo … hi], acc) -> :Done(lo * {T} + hi)\n  :Scan([x | tail], acc) -> :Done(x * {T} + x)\n  :Scan([], acc) -> :Done(acc)\n".replace("{T}", &l(10)), match xs.len() { 0 => 0, 1 => xs[0] * 11, n => xs[0] * 10 + xs[n - 1] }),
+        };
+        if xs.is_empty() && pat != "sum" { return Outcome::trivial(); }
+        let src = format!("#Arr(xs<[{k}]>) => <{k}>\n  ├ :Scan(xs<[{k}]>, acc<{k}>)\n  └ :Done(out<{k}>).\n\n#Arr(xs) -> :Scan(xs, {z})\n{body}  :Done(out) => out.\n\n#Arr({arg})", k = k, z = l(0), body = body, arg = arg);
+        let mut s = Sess::new();
+        let res = s.eval(&src);
+        let wantv = CVal::S(k.to_string(), sc(want));
+        // the u64 twin of the same machine decides whether the machine as written is supported at all
+        match &res {
+          Ev::Ok(v) if *v == wantv => Outcome::held(),
+          Ev::Panic(p) => Outcome::violated("panic-escaped", p.clone()),
+          Ev::ParseErr(m) => Outcome::inconclusive("harness-parse", format!("{}: {}", src, m)),
+          other => {
+            if k != "u64" {
+              let lu = |v: i64| format!("{}u64", v);
+              let twin = format!("#Arr(xs<[u64]>) => <u64>\n  ├ :Scan(xs<[u64]>, acc<u64>)\n  └ :Done(out<u64>).\n\n#Arr(xs) -> :Scan(xs, 0u64)\n{body}  :Done(out) => out.\n\n#Arr({arg})", body = body.replace(&l(10), "10u64"), arg = if xs.is_empty() { "[]".to_string() } else { format!("[{}]", xs.iter().map(|x| lu(*x)).collect::<Vec<_>>().join(" ")) });
+              let mut t = Sess::new();
+              let tw = t.eval(&twin);
+              if !matches!(&tw, Ev::Ok(CVal::S(_, Sc::U(g))) if *g as i64 == want) { return Outcome::trivial().tag(format!("machine-unsupported:{}", pat)); }
+            }
+            Outcome::violated("wrong-result", format!("{}\nreturned {} expected {}", src, other.show(), wantv.show()))
+          }
+        }
+      }
+      "argkind" => {
+        let d = case.input["decl"].as_str().unwrap();
+        let a = case.input["arg"].as_str().unwrap();
+        let accept = case.input["accept"].as_bool().unwrap();
+        let via = case.input["via"].as_str().unwrap();
+        let call = if via == "variable" { format!("argv := {}\n#K(argv)", a) } else { format!("#K({})", a) };
+        let src = format!("#K(p<{d}>) => <u64>\n  ├ :A(p<{d}>)\n  └ :Done(out<u64>).\n\n#K(p) -> :A(p)\n  :A(p) -> :Done(7u64)\n  :Done(out) => out.\n\n{call}", d = d, call = call);
+        let mut s = Sess::new();
+        match (s.eval(&src), accept) {
+          (Ev::Panic(p), _) => Outcome::violated("panic-escaped", p),
+          (Ev::ParseErr(m), _) => Outcome::inconclusive("harness-parse", format!("{}: {}", src, m)),
+          (Ev::Ok(v), true) => if v == sc_u("u64", 7) { Outcome::held() } else { Outcome::violated("wrong-result", format!("{}\nreturned {}", src, v.show())) },
+          (Ev::Ok(v), false) => Outcome::violated("illformed-accepted", format!("{}\nan argument of another kind than the declared {} was accepted: {}", src, d, v.show())),
+          (Ev::Err(kd, m), true) => Outcome::violated("well-kinded-argument-rejected", format!("{}\n{} {}", src, kd, m.chars().take(120).collect::<String>())),
+          (Ev::Err(..), false) => Outcome::held(),
+        }
       }
       "nested" => {
         let k = case.input["k"].as_u64().unwrap();
